@@ -137,6 +137,9 @@ class ConcreteSym:
     def realize(self, v):
         return v
 
+    def untraced(self, fn):
+        return fn()
+
     def constrain_any(self, conds):
         if not any(conds):
             raise AssumeFailed("disjunctive constraint false on recorded inputs")
